@@ -65,7 +65,10 @@ type Sim struct {
 	Universe map[string]bool
 
 	TaskCap int
-	// task-delay deviation (see HoldAfter)
+	// advertisement Data answered by the neighbour but not yet delivered to the requester
+	// (delivery deviation Xq / Fd: Data of one neighbour may overtake each other)
+	InFlight []*FlightData
+	// task-delay deviation (see HoldBefore)
 	Held      []*vsched.Task
 	HeldDesc  string
 	holdSite  string
@@ -87,6 +90,9 @@ type Options struct {
 	// RouterPrefix is the name prefix of the routers (router i is <RouterPrefix>/r<i>); default
 	// Network ("/ndn"), i.e. two-component router names.
 	RouterPrefix string
+	// Nested makes every router name an extension of the previous one: r0 = <prefix>/r0,
+	// r1 = <prefix>/r0/x1, r2 = <prefix>/r0/x1/x2, ... (names in a prefix relation).
+	Nested bool
 }
 
 // NewSim builds N fresh routers with default options.
@@ -97,7 +103,7 @@ func NewSimOpt(g Graph, o Options) *Sim {
 	if o.RouterPrefix == "" {
 		o.RouterPrefix = Network
 	}
-	vtime.Reset(false)
+	vtime.Reset(true) // timers armed by the code under test (none in the unchanged tree) fire when the clock passes them
 	vsched.Reset()
 	s := &Sim{G: g, Live: map[[2]int]bool{}, Alt: map[[2]int]bool{}, Passive: map[[2]int]bool{}, byName: map[string]int{}, byHash: map[uint64]int{}, Universe: map[string]bool{}, TaskCap: 100000}
 	for _, e := range g.Edges {
@@ -105,6 +111,12 @@ func NewSimOpt(g Graph, o Options) *Sim {
 	}
 	for i := 0; i < g.N; i++ {
 		n := &Node{Idx: i, NameStr: fmt.Sprintf("%s/r%d", o.RouterPrefix, i)}
+		if o.Nested {
+			n.NameStr = o.RouterPrefix + "/r0"
+			for k := 1; k <= i; k++ {
+				n.NameStr += fmt.Sprintf("/x%d", k)
+			}
+		}
 		s.Nodes = append(s.Nodes, n)
 		s.byName[n.NameStr] = i
 		nm, err := enc.NameFromStr(n.NameStr)
@@ -128,7 +140,7 @@ func (s *Sim) boot(i int) {
 	if n.DV != nil {
 		n.DV.VerifNfdc().Stop() // previous incarnation's management goroutine
 	}
-	n.Eng = &Engine{sim: s, idx: i, barrier: make(chan struct{}, 1)}
+	n.Eng = &Engine{sim: s, idx: i, barrier: make(chan struct{}, 1), failIn: -1}
 	old := vsched.SetContext(fmt.Sprintf("r%d", i))
 	r, err := dv.NewRouter(cfg, n.Eng)
 	if err != nil {
@@ -497,6 +509,60 @@ func (s *Sim) Ping(i, j int, active bool) {
 	}
 }
 
+// FlightData is an advertisement Data packet on its way back to the requester.
+type FlightData struct {
+	X    *Expressed
+	Wire enc.Wire
+	Adv  string // canonical content
+}
+
+// ExchangeQueued is Exchange up to the point where the neighbour has answered: router i hears j's
+// sync Interest, its fetch reaches j, j's reply (its advertisement as of NOW) is put in flight and
+// stays there until DeliverFlight.
+func (s *Sim) ExchangeQueued(i, j int) {
+	s.Ping(i, j, !s.Passive[[2]int{i, j}])
+	for _, x := range s.Parked(i, KAdvData) {
+		if x.Target != j {
+			continue
+		}
+		s.removeParked(x)
+		reply := s.deliverInterest(j, x, s.FaceID(j, i))
+		if reply == nil {
+			s.deliverFailure(x, ndn.InterestResultTimeout)
+			continue
+		}
+		adv := "?"
+		if d, _, err := (spec.Spec{}).ReadData(enc.NewWireReader(reply)); err == nil {
+			if a, err := tlv.ParseAdvertisement(enc.NewBufferReader(d.Content().Join()), false); err == nil {
+				adv = advertStr(s, a, false)
+			}
+		}
+		s.InFlight = append(s.InFlight, &FlightData{x, reply, adv})
+	}
+}
+
+// FlightOf lists the in-flight Data addressed to router i, oldest first.
+func (s *Sim) FlightOf(i int) []*FlightData {
+	var out []*FlightData
+	for _, f := range s.InFlight {
+		if f.X.From == i {
+			out = append(out, f)
+		}
+	}
+	return out
+}
+
+// DeliverFlight hands in-flight Data to the requester's callback.
+func (s *Sim) DeliverFlight(f *FlightData) {
+	for k, g := range s.InFlight {
+		if g == f {
+			s.InFlight = append(s.InFlight[:k:k], s.InFlight[k+1:]...)
+			break
+		}
+	}
+	s.deliverData(f.X, f.Wire)
+}
+
 // DeliverAdv delivers the parked advertisement fetch x (expressed by x.From for x.Target) to the
 // target's handler and the Data it replies to the requester's callback. If the target cannot be
 // reached the Interest times out instead.
@@ -539,6 +605,17 @@ func (s *Sim) Exchange(i, j int) {
 func (s *Sim) AdvanceClock(d time.Duration) {
 	vtime.Advance(d)
 	now := vtime.Now()
+	for _, f := range append([]*FlightData{}, s.InFlight...) {
+		if now.Sub(f.X.At) > 4*time.Second { // the Interest timed out before its Data arrived
+			for k, g := range s.InFlight {
+				if g == f {
+					s.InFlight = append(s.InFlight[:k:k], s.InFlight[k+1:]...)
+					break
+				}
+			}
+			s.deliverFailure(f.X, ndn.InterestResultTimeout)
+		}
+	}
 	for i := range s.Nodes {
 		for _, x := range append([]*Expressed{}, s.Nodes[i].Eng.outbox...) {
 			lt := 4 * time.Second
@@ -652,6 +729,13 @@ func (s *Sim) LinkUp(i, j int)   { s.Live[key(i, j)] = true }
 func (s *Sim) RouterDown(r int) {
 	s.Nodes[r].Up = false
 	s.Nodes[r].Eng.outbox = nil
+	var fl []*FlightData
+	for _, f := range s.InFlight {
+		if f.X.From != r {
+			fl = append(fl, f)
+		}
+	}
+	s.InFlight = fl
 	// the process is gone: so are its goroutines
 	var keep []*vsched.Task
 	for _, t := range s.Held {
@@ -691,6 +775,45 @@ func (s *Sim) Drain() {
 		for _, c := range cmds {
 			s.applyCmd(n, c)
 		}
+	}
+	if vtime.PendingTimers() == 0 {
+		for _, n := range s.Nodes {
+			if n.Eng != nil {
+				n.Eng.rejected = nil // nothing can be retried any more
+			}
+		}
+	}
+}
+
+// ArmMgmtFailure makes the forwarder reject router r's (k+1)-th next rib command once.
+func (s *Sim) ArmMgmtFailure(r, k int) { s.Nodes[r].Eng.failIn = k }
+
+// MgmtFailureArmed / MgmtFailures: deviation bookkeeping.
+func (s *Sim) MgmtFailureArmed(r int) bool { return s.Nodes[r].Eng.failIn >= 0 }
+func (s *Sim) MgmtFailures() int {
+	n := 0
+	for _, x := range s.Nodes {
+		if x.Eng != nil {
+			n += x.Eng.fails
+			if x.Eng.failIn >= 0 {
+				n++
+			}
+		}
+	}
+	return n
+}
+
+// TimersPending reports whether the code under test has armed timers that have not fired yet
+// (e.g. a delayed retry of a management command).
+func (s *Sim) TimersPending() bool { return vtime.PendingTimers() > 0 }
+
+// RunTimers lets virtual time pass (200 ms a step) until no timer is pending, draining the
+// management queues after every step.
+func (s *Sim) RunTimers() {
+	for i := 0; i < 20 && vtime.PendingTimers() > 0; i++ {
+		s.AdvanceClock(200 * time.Millisecond)
+		s.RunTasks()
+		s.Drain()
 	}
 }
 
